@@ -613,4 +613,195 @@ theorem readAndCutStr_eq_specRun (opt : Opt) (input : Bytes) (hd : opt.delimiter
   cutRecords_eq_spec opt hd hre hty hjson hz hL _ [] []
 
 
+/-! ## consequence: the engine never panics and never hangs -/
+
+/-- a run that ended as a process can legitimately end: exit 0 or exit 1 -/
+def Run.Clean (r : Run) : Prop := r.status = .ok ∨ r.status = .fail
+
+theorem Run.Clean.pre {w : Bytes} {r : Run} (h : r.Clean) : (Run.pre w r).Clean := h
+
+theorem Run.Clean.seq {a b : Run} (ha : a.Clean) (hb : b.Clean) : (a.seq b).Clean := by
+  obtain ⟨ao, as⟩ := a
+  cases as <;> simp_all [Run.seq, Run.Clean]
+
+theorem emit_clean (cfg : Cfg) (tok : Tok) (sep : Nat → Bytes) (j : Bytes) :
+    ∀ (l : List BoF), (emit cfg tok sep j l).Clean
+  | [] => Or.inl rfl
+  | .filler f :: t => by
+    simp only [emit]
+    exact (emit_clean cfg tok sep j t).pre
+  | .bound b :: t => by
+    have ih := emit_clean cfg tok sep j t
+    simp only [emit]
+    split
+    · exact Or.inr rfl
+    · split
+      · exact Or.inr rfl
+      · exact ih.pre
+
+theorem specRecord_clean (opt : Opt) (line : Bytes) (hty : opt.boundsType = .fields)
+    (hjson : opt.json = false) : (specRecord (cfgOf opt) line).Clean := by
+  rw [specRecord_fields line opt hty hjson]
+  split
+  · split
+    · exact Or.inl rfl
+    · exact Or.inl rfl
+  · split
+    · exact Or.inl rfl
+    · split
+      · exact Or.inr rfl
+      · exact (emit_clean _ _ _ _ _).seq (Or.inl rfl)
+
+theorem specRunRecords_clean (opt : Opt) (hty : opt.boundsType = .fields)
+    (hjson : opt.json = false) : ∀ (recs : List Bytes), (specRunRecords (cfgOf opt) recs).Clean
+  | [] => Or.inl rfl
+  | r :: t => (specRecord_clean opt r hty hjson).seq (specRunRecords_clean opt hty hjson t)
+
+/-- **C01 ⇒ C12 for this engine.**  Whatever the input, the general field engine ends with exit
+    status 0 or 1: no slice out of range, no `unwrap` on `None`. -/
+theorem readAndCutStr_clean (opt : Opt) (input : Bytes) (hd : opt.delimiter ≠ [])
+    (hre : opt.regexBag = none) (hty : opt.boundsType = .fields) (hjson : opt.json = false)
+    (hz : AllNonzero opt.bounds.list) (hL : LastMarked opt.bounds.list) :
+    (readAndCutStr opt input).status = .ok ∨ (readAndCutStr opt input).status = .fail := by
+  rw [readAndCutStr_eq_specRun opt input hd hre hty hjson hz hL]
+  exact specRunRecords_clean opt hty hjson _
+
+/-! ## what the bounds parser delivers satisfies the hypotheses -/
+
+
+theorem side_nonzero_of_ne (l : Side) (h : ¬ l = .some 0) : l.Nonzero := by
+  cases l with
+  | cont => trivial
+  | some v => intro h0; apply h; rw [h0]
+
+theorem parseUserBounds_good (s : List Char) (b : UserBounds) (h : parseUserBounds s = some b) :
+    b.Nonzero ∧ b.isLast = false := by
+  unfold parseUserBounds at h
+  simp only [] at h
+  repeat' split at h
+  all_goals try (cases h; done)
+  all_goals
+    simp only [Option.some.injEq] at h
+    subst h
+    refine ⟨⟨side_nonzero_of_ne _ ?_, side_nonzero_of_ne _ ?_⟩, rfl⟩ <;> assumption
+def AllBounds (P : UserBounds → Prop) (l : List BoF) : Prop := ∀ b, BoF.bound b ∈ l → P b
+
+theorem parseAll_all (P : UserBounds → Prop) (hP : ∀ s b, parseUserBounds s = some b → P b) :
+    ∀ (ss : List (List Char)) (bs : List UserBounds), parseAll ss = some bs → ∀ b ∈ bs, P b
+  | [], bs, h => by simp [parseAll] at h; subst h; intro b hb; cases hb
+  | s :: t, bs, h => by
+    simp only [parseAll] at h
+    cases h1 : parseUserBounds s with
+    | none => simp [h1] at h
+    | some b1 =>
+      cases h2 : parseAll t with
+      | none => simp [h1, h2] at h
+      | some bs' =>
+        simp only [h1, h2, Option.some.injEq] at h
+        subst h
+        intro b hb
+        rcases List.mem_cons.mp hb with rfl | hb
+        · exact hP s _ h1
+        · exact parseAll_all P hP t bs' h2 b hb
+
+theorem pushFiller_all {P : UserBounds → Prop} {st : ScanSt} (h : AllBounds P st.bof) :
+    AllBounds P st.pushFiller := by
+  unfold ScanSt.pushFiller
+  split
+  · exact h
+  · intro b hb
+    rcases List.mem_cons.mp hb with hb | hb
+    · cases hb
+    · exact h b hb
+
+theorem scanStep_all (P : UserBounds → Prop) (hP : ∀ s b, parseUserBounds s = some b → P b)
+    (w0 : Char) (st st' : ScanSt) (h : AllBounds P st.bof) (hs : scanStep w0 st = some st') :
+    AllBounds P st'.bof := by
+  unfold scanStep at hs
+  split at hs
+  · cases hs
+  · split at hs
+    · split at hs
+      · cases hs
+      · simp only [Option.some.injEq] at hs; subst hs; exact pushFiller_all h
+    · split at hs
+      · split at hs
+        · cases hs
+        · rename_i bs hbs
+          simp only [Option.some.injEq] at hs; subst hs
+          intro b hb
+          simp only [List.mem_append, List.mem_reverse, List.mem_map, BoF.bound.injEq] at hb
+          rcases hb with ⟨c, hc, rfl⟩ | hb
+          · exact parseAll_all P hP _ _ hbs c hc
+          · exact h b hb
+      · simp only [Option.some.injEq] at hs; subst hs; exact h
+
+theorem scanEnd_all {P : UserBounds → Prop} {st : ScanSt} {l : List BoF} (h : AllBounds P st.bof)
+    (hs : scanEnd st = some l) : AllBounds P l := by
+  unfold scanEnd at hs
+  split at hs
+  · cases hs
+  · simp only [Option.some.injEq] at hs; subst hs
+    intro b hb
+    exact pushFiller_all h b (List.mem_reverse.mp hb)
+
+theorem scan_all (P : UserBounds → Prop) (hP : ∀ s b, parseUserBounds s = some b → P b) :
+    ∀ (s : List Char) (st : ScanSt) (l : List BoF), AllBounds P st.bof → scan s st = some l →
+      AllBounds P l := by
+  intro s st
+  fun_induction scan s st with
+  | case1 st => intro l h hs; exact scanEnd_all h hs
+  | case2 w0 st hstep => intro l h hs; cases hs
+  | case3 w0 st st' hstep => intro l h hs; exact scanEnd_all (scanStep_all P hP w0 st st' h hstep) hs
+  | case4 w0 w1 rest st hc ih => intro l h hs; exact ih l h hs
+  | case5 w0 w1 rest st hc hstep => intro l h hs; cases hs
+  | case6 w0 w1 rest st hc st' hstep ih =>
+    intro l h hs; exact ih l (scanStep_all P hP w0 st st' h hstep) hs
+
+theorem parseBoundsList_all (P : UserBounds → Prop) (hP : ∀ s b, parseUserBounds s = some b → P b)
+    (s : List Char) (l : List BoF) (h : parseBoundsList s = some l) : AllBounds P l := by
+  unfold parseBoundsList at h
+  split at h
+  · simp only [Option.some.injEq] at h; subst h; intro b hb; cases hb
+  · split at h
+    · exact scan_all P hP s _ l (by intro b hb; cases hb) h
+    · simp only [Option.map_eq_some_iff] at h
+      obtain ⟨bs, hbs, rfl⟩ := h
+      intro b hb
+      simp only [List.mem_map, BoF.bound.injEq] at hb
+      obtain ⟨c, hc, rfl⟩ := hb
+      exact parseAll_all P hP _ _ hbs c hc
+
+/-- **every accepted `--fields` argument satisfies the hypotheses of `cutStr_eq_spec`** -/
+theorem boundsListOfString_good (s : List Char) (ubl : UserBoundsList)
+    (h : boundsListOfString s = .ok ubl) : AllNonzero ubl.list ∧ LastMarked ubl.list := by
+  unfold boundsListOfString at h
+  split at h
+  · cases h
+  · split at h
+    · cases h
+    · rename_i l hl
+      split at h
+      · cases h
+      · have hall := parseBoundsList_all (fun b => b.Nonzero ∧ b.isLast = false)
+          parseUserBounds_good s l hl
+        have hnz : AllNonzero l := fun b hb => (hall b hb).1
+        have hnm : NoneMarked l := fun b hb => (hall b hb).2
+        refine ⟨?_, fromVec_lastMarked l ubl hnm h⟩
+        unfold fromVec at h
+        cases hm : markLast l with
+        | none => simp [hm] at h
+        | some l' =>
+          simp only [hm, Res.ok.injEq] at h
+          subst h
+          exact allNonzero_of_eraseLast_eq (markLast_eraseLast l l' hm) hnz
+
+/-- **C01, for every accepted bounds argument.** -/
+theorem readAndCutStr_eq_specRun_of_parsed (opt : Opt) (input : Bytes) (s : List Char)
+    (hparse : boundsListOfString s = .ok opt.bounds) (hd : opt.delimiter ≠ [])
+    (hre : opt.regexBag = none) (hty : opt.boundsType = .fields) (hjson : opt.json = false) :
+    readAndCutStr opt input = specRun (cfgOf opt) input :=
+  have h := boundsListOfString_good s opt.bounds hparse
+  readAndCutStr_eq_specRun opt input hd hre hty hjson h.1 h.2
+
 end Tuc
